@@ -21,7 +21,8 @@ EXPLANATION = (
 RULE_TEXT = (
     "C05.a reset dominates every exit of _execute; C05.b provenance of tuple rows contains no values()/items() of a "
     "to_pylist() row dict; C05.c offset==index(0 if unset), length==advance; C05.d no-result-set error raised before "
-    "any dereference; C05.e default size == attribute written by the arraysize setter."
+    "any dereference; C05.e default size == attribute written by the arraysize setter; C05.f fetch_pandas_all converts "
+    "the whole result table whatever the fetch index."
 )
 TRUSTED = ["CPython ast", "pyarrow Table/RecordBatch.to_pylist() yields name-keyed dicts; Table.slice(offset,length) is positional"]
 
